@@ -522,6 +522,26 @@ class Flow:
             if c[0] == "call" and c[2][0] == "attr" and c[2][2] == "edges" and \
                     ((not c[3] and c[4] == (("data", ("const", True)),)) or (c[3] == (("const", True),) and not c[4])):
                 return ("sub", ("attr", c[2][1], "edges"), ("tuple", (("sub", base, ("const", 0)), ("sub", base, ("const", 1)))))
+        # a, b = (f(x) for x in pair[:2]): component i of an unfiltered comprehension over a sequence of known length is its
+        # element expression with the variable standing for the i-th element of that sequence
+        if base[0] == "comp" and base[1] in ("list", "gen") and len(base[4]) == 1 and not base[4][0][2] and key[0] == "const" and \
+                isinstance(key[1], int) and not isinstance(key[1], bool) and key[1] >= 0:
+            var = base[4][0][1]
+            coll = var[2] if var[0] == "iter" else None
+            item = None
+            if coll is not None and coll[0] in ("tuple", "list") and key[1] < len(coll[1]) and not any(x[0] == "star" for x in coll[1]):
+                item = coll[1][key[1]]
+            elif coll is not None and coll[0] == "sub" and coll[2][0] == "slice" and coll[2][1] in (None, ("const", 0)) and coll[2][3] is None and \
+                    coll[2][2] is not None and coll[2][2][0] == "const" and isinstance(coll[2][2][1], int) and key[1] < coll[2][2][1]:
+                item = self.subscript(coll[1], key)
+            if item is not None:
+                def subst(t):
+                    if t == var:
+                        return item
+                    if isinstance(t, tuple):
+                        return tuple(subst(x) for x in t)
+                    return t
+                return subst(base[3])
         # the i-th component of an element of a comprehension / generator that yields tuple literals
         if base[0] == "iter" and key[0] == "const" and isinstance(key[1], int) and not isinstance(key[1], bool) and base[2][0] == "comp" and \
                 base[2][1] in ("list", "gen", "generator") and base[2][3][0] == "tuple" and 0 <= key[1] < len(base[2][3][1]) and \
